@@ -1,4 +1,4 @@
-import Model.HCM
+import Model.HCMSpec
 import Driver.Util
 namespace PylifeVerif.Driver
 open PylifeVerif.HCM
@@ -21,7 +21,21 @@ def handleHCM : List String → Option String
     let samples := chunksOf nn vals (vals.length / nn)
     let st := twoPass law samples
     let recs := " ".intercalate (st.recs.map showHyst)
-    some s!"recs={recs};strain={joinInts st.strainValues};nfirst={st.nFirst};iz={st.iz};ir={st.ir};max={st.loadMax}"
+    let fed := " ".intercalate (st.fed.map fun f => s!"{f.1}:{rep f.2}")
+    some s!"recs={recs};strain={joinInts st.strainValues};nfirst={st.nFirst};iz={st.iz};ir={st.ir};max={st.loadMax};fed={fed}"
+  | "prf" :: rest => do
+    let vals ← parseInts rest
+    let r := Spec.periodicRainflow vals
+    let sorted := r.toArray.qsort (fun a b => a.1 < b.1 || (a.1 == b.1 && a.2 < b.2)) |>.toList
+    some (" ".intercalate (sorted.map fun c => s!"{c.1}:{c.2}"))
+  | "hcmg" :: lawName :: n1 :: rest => do
+    -- guideline procedure on one point: `hcmg <law> <n1> <turns of pass 1> <turns of pass 2>`
+    let law ← lawByName lawName
+    let n1 ← n1.toNat?
+    let vals ← parseInts rest
+    let st := Spec.guideline law (vals.take n1) (vals.drop n1)
+    let sh (h : Spec.GHyst) := s!"{h.run}{if h.closed then "C" else "H"}|{h.loadMin}|{h.loadMax}|{h.sMin}|{h.sMax}|{h.eMin}|{h.eMax}|{h.eMinLF}|{h.eMaxLF}"
+    some s!"recs={" ".intercalate (st.recs.map sh)};strain={joinInts st.strains}"
   | _ => none
 
 end PylifeVerif.Driver
